@@ -31,19 +31,13 @@ Qed.
 Print Assumptions C01_opt_test_sound_user.
 
 (* 4. the driver: for EVERY floating point oracle and EVERY rational re-solve oracle (any precision,
-      pricing, scaling, warm start, limit), OPTIMAL leaves through an exit other than ladder
-      exhaustion only with a cache that passed the test *)
-Theorem C01_driver_optimal_sound_partial :
+      pricing, scaling, warm start, limit), OPTIMAL is returned only with a cache that passed the
+      test - on every exit, ladder exhaustion included (after the fix recorded in known_findings.json) *)
+Theorem C01_driver_optimal_sound :
   forall M P ns float_solve basis_status ebasis max_iter a,
     let r := exact_solver M P ns float_solve basis_status ebasis max_iter a in
-    r_exit r <> ExitLadderExhausted -> r_rval r = false -> r_status r = StOptimal ->
+    r_rval r = false -> r_status r = StOptimal ->
     exists s B ps ds, r_sol r = Some s /\ opt_test P ns B ps ds = Some s.
-Proof. exact driver_optimal_sound_partial. Qed.
-Print Assumptions C01_driver_optimal_sound_partial.
+Proof. exact driver_optimal_sound. Qed.
+Print Assumptions C01_driver_optimal_sound.
 
-(* 5. the full statement (without the exit-label premise) is FALSE of the faithful model *)
-Theorem C01_driver_optimal_refuted :
-  exists fs bs, let r := exact_solver 1 P0 0 fs bs None 12 PrimalS in
-    r_rval r = false /\ r_status r = StOptimal /\ r_sol r = None.
-Proof. exact driver_optimal_refuted. Qed.
-Print Assumptions C01_driver_optimal_refuted.
